@@ -113,6 +113,11 @@ func TestVerifC12E2E(t *testing.T) {
 		}
 		for i, o := range outs {
 			if o.status != 0 {
+				if joinNeverStarted(o.log) {
+					rec.Class("not-run-join-never-reached-the-session")
+					rec.Note("receiver %d printed nothing but its banner (status %d): %s", i+1, o.status, desc)
+					return
+				}
 				sig := "e2e:receiver-not-served"
 				if o.status == -1 {
 					sig = "e2e:receiver-never-started-or-finished"
